@@ -85,7 +85,7 @@ func init() {
 			`established by dominating branch outcomes, directly or through a boolean/error validator function. R10.len: every slicing of the untrusted-length ` +
 			`slice SignatureInfo.Hashes needs a dominating comparison of the same bound with len() of that slice. ` +
 			`R10.space: an index is never related to both builds' file lists (a bound check against the other build's container does not protect the use). ` +
-			`Sink kinds also include the exit test of a loop comparing with a wire-derived integer that has no upper bound. R10.nil in processRsync/processBsdiff, when the entry writer lives in a cell, every method invoked on it - in the function, or in a literal at each place that is called or handed on - is reached from the variable's declaration only through an assignment of a writer, or sits behind a nil test. NOT decided: nil-dereference and type-assertion panics, non-termination, truncation handling inside io/proto libraries, compressed framing, values passed through channels or slice elements.`,
+			`Sink kinds also include the exit test of a loop comparing with a wire-derived integer that has no upper bound. R10.nil in processRsync/processBsdiff, when the entry writer lives in a cell, every method invoked on it - in the function, or in a literal at each place that is called or handed on - is reached from the variable's declaration only through an assignment of a writer, or sits behind a nil test. R10.ptr a sub-message pointer (read from a generated message's pointer field, returned by its getter, or received as a parameter from a call that hands one over) has a field selected directly only behind a test against nil. NOT decided: nil-dereference and type-assertion panics, non-termination, truncation handling inside io/proto libraries, compressed framing, values passed through channels or slice elements.`,
 		Assumptions: []string{
 			"tlc.Container messages are well-formed and no frame declares a length beyond the stream (C10's own preconditions)",
 			"no reflection/unsafe; two distinct variables do not alias unless one was assigned from the other",
@@ -106,6 +106,7 @@ func c10Config(precise bool) TaintConfig {
 func runC10(c *core.Ctx) {
 	ruleNoAllocBySizeDeclared(c, "R10.alloc")
 	ruleNoInvokeOnUnsetWriter(c, "R10.nil")
+	ruleAbsentSubMessagesAreNotDereferenced(c, "R10.ptr")
 	ruleNoSwallowedLayerErrors(c, "R10.swallow", moduleErrCallee, "/pwr", "/pwr/patcher", "/pwr/bowl", "/pwr/rediff", "/pwr/overlay", "/wire", "/wsync", "/bsdiff", "/bsdiff/lrufile", "/multiread", "/ctxcopy")
 	ruleNoDroppedLayerErrors(c, "R10.err", "/pwr", "/pwr/patcher", "/pwr/bowl", "/pwr/rediff", "/pwr/overlay", "/wire", "/wsync", "/bsdiff", "/multiread", "/ctxcopy")
 	c.Rule("R10.sink", "wire-derived integers reach index/slice/make/divide/pool-call sinks only under a two-sided range guard or an equality with trusted data")
